@@ -8,6 +8,9 @@ import (
 	"verif/sim"
 
 	"github.com/tsuna/gohbase"
+	"github.com/tsuna/gohbase/hrpc"
+	"github.com/tsuna/gohbase/pb"
+	"google.golang.org/protobuf/proto"
 	"github.com/tsuna/gohbase/region"
 )
 
@@ -28,4 +31,15 @@ func newClient(c *sim.Cluster, opts ...gohbase.Option) gohbase.Client {
 func newAdminClient(c *sim.Cluster, opts ...gohbase.Option) gohbase.AdminClient {
 	base := []gohbase.Option{gohbase.RegionDialer(c.Dialer()), gohbase.Logger(quietLogger)}
 	return gohbase.VerifNewAdminClient(c.ZK(), append(base, opts...)...)
+}
+
+// msgResult converts the response message of a batch call to a Result.
+func msgResult(m proto.Message) *hrpc.Result {
+	switch r := m.(type) {
+	case *pb.GetResponse:
+		return hrpc.ToLocalResult(r.Result)
+	case *pb.MutateResponse:
+		return hrpc.ToLocalResult(r.Result)
+	}
+	return nil
 }
